@@ -153,9 +153,12 @@ def value_recipe(kind, tok):
 META_VALUES = {
     'include': [True, False, 0, 1],
     'tag': [{'t': 'list', 'v': ['g1']}, {'t': 'list', 'v': ['g1', 'g2']},
-            {'t': 'list', 'v': []}],
-    'text': ['lbl', 'some text', 'T{1}'],
-    'label': ['L1', 'a label'],
+            {'t': 'list', 'v': []},
+            # values a serialiser may be tempted to "normalise"
+            {'t': 'list', 'v': [' padded tag ', 'g2']},
+            {'t': 'list', 'v': [1, 'Mixed Case']}],
+    'text': ['lbl', 'some text', 'T{1}', ' padded '],
+    'label': ['L1', 'a label', ' Padded Label '],
     'name': ['n1', 'n2'],
     'comment': ['c1', 'a comment'],
     'component': [1, 2, 7],
